@@ -6,7 +6,7 @@ import traceback
 
 from .model import Program, AnalysisError, Inconclusive
 from .resolve import Resolver
-from .norm import normalize_calls, normalize_membership, normalize_ifexp, normalize_next_genexp
+from .norm import normalize_calls, normalize_membership, normalize_ifexp, normalize_next_genexp, normalize_counting_while
 from .excflow import ExcFlow
 from .effects import Effects
 
@@ -53,6 +53,7 @@ class Ctx:
         normalize_membership(self.P)
         normalize_ifexp(self.P)
         normalize_next_genexp(self.P)
+        normalize_counting_while(self.P)
         self._X = None
         self.E = Effects(self.P, self.R)
         self.tier = tier
